@@ -121,7 +121,9 @@ PeerReportOK(req, a, out) ==
   IsQueryResp(req, out) => (~Frames(out)[1].more => a.expect \subseteq DescSet(Frames(out)[1]))
 
 AuxNext(ev, req, a0, out) ==
-  LET a == [a0 EXCEPT !.expect = IF IsTopoReset(req) THEN {}
+  \* C07 lets "a Reset" discard the record; for the quick-discovery Reset the general spec leaves both open
+  \* (freedom), so an expectation does not survive a Reset of either service
+  LET a == [a0 EXCEPT !.expect = IF req.op = OpReset /\ req.tos \in {0, 1} THEN {}
                                  ELSE IF IsQueryResp(req, out) THEN a0.expect \ DescSet(Frames(out)[1])
                                  ELSE ExpectAfterRx(ev, a0)]
       a1 == IF IsTopoReset(req) /\ FaultOf(ev) = 0 /\ a.resetLive < 0
